@@ -12,9 +12,11 @@ False of the unchanged code, with witness and complement:
   (`linux_routes_converge_counterexample`, F-C05d); proved otherwise: `linux_routes_converge_partial`.
 * `iptables_replace_converges` — false when the device has a table the target lacks
   (`iptables_replace_converges_counterexample`, F-C05t); proved otherwise: `…_partial`.
-* `kernel_roundtrip` — false when an option key repeats (`kernel_roundtrip_counterexample`, F-C05m)
-  and for an un-negated `--syn` (`kernel_roundtrip_syn_counterexample`, F-C05s); proved for the
-  grammar under `RuleOK`: `kernel_roundtrip_partial`.
+* `kernel_roundtrip` — false when an option key repeats (`kernel_roundtrip_counterexample`, F-C05m);
+  proved for the grammar under `RuleOK`: `kernel_roundtrip_partial`.  (It was also false for an
+  un-negated `--syn`, F-C05s — repaired in /repo, now covered: `kernel_roundtrip_syn`.)
+* `iptables_diff_iff` — false for a table with the empty name (`iptables_diff_iff_counterexample`);
+  proved when no name is empty: `iptables_diff_iff_partial`.
 * `normalize_idempotent` — false in general (`normalize_idempotent_counterexample`); proved on
   stable maps: `normalize_idempotent_partial`.
 * `normalize_sound` — false for a repeated option key (`normalize_sound_counterexample`); what equal
@@ -77,9 +79,17 @@ theorem linux_routes_kernel_strict (a b : List Route) (ha : (keys a).Nodup) (hb 
 /-! ## iptables: compare -/
 
 /-- `diffIPTables` reports nothing iff both rule sets have the same tables, in each the same
-chains, for each chain the same policy and, rule by rule in order, the same option map. -/
-theorem iptables_diff_iff (a b : Tables) : diffIPTables a b = .same ↔ TablesEq a b :=
-  diffIPTables_same a b
+chains, for each chain the same policy and, rule by rule in order, the same option map — for rule
+sets in which no table, chain or option is named by the empty string. -/
+theorem iptables_diff_iff_partial (a b : Tables) (ha : NETables a) (hb : NETables b) :
+    diffIPTables a b = .same ↔ TablesEq a b :=
+  diffIPTables_same a b ha hb
+
+/-- Without that hypothesis it is false: the code tests the comma-joined extra names for emptiness,
+so a table with the empty name (a line `*`) that only one side has goes unnoticed. -/
+theorem iptables_diff_iff_counterexample :
+    ∃ a b : Tables, diffIPTables a b = .same ∧ ¬ TablesEq a b :=
+  ⟨[([], [])], [], by decide, fun h => by have := h []; simp [getA] at this⟩
 
 /-! ## iptables: loading the printed file -/
 
@@ -157,8 +167,13 @@ theorem kernel_roundtrip_partial (cfg : KCfg) (r : ARule) (H : RuleOK cfg r) :
 theorem kernel_roundtrip_no_diff (cfg : KCfg) (r : ARule) (H : RuleOK cfg r) (t c : Str) (i : Nat) :
     ∃ pk pu, parsePairs (kernelWords cfg r) = some pk ∧ parsePairs (userWords r) = some pu ∧
       diffRule t c i (normalize pk) (normalize pu) = .same := by
-  obtain ⟨pk, pu, h1, h2, h3⟩ := kernel_roundtrip_partial cfg r H
-  exact ⟨pk, pu, h1, h2, (diffRule_same t c i _ _).mpr h3⟩
+  have hku := kernelOpts_ok cfg r H.wf
+  have huu : ∀ o ∈ userOpts r, OptOK o := by
+    intro o ho
+    obtain ⟨a, ha, e⟩ := List.mem_map.mp ho
+    rw [← e]; exact user_ok a (H.wf a ha)
+  exact ⟨_, _, parsePairs_words _ hku, parsePairs_words _ huu,
+    (diffRule_same t c i _ _ (normalize_pairsOf_NE _ hku) (normalize_pairsOf_NE _ huu)).mpr (rule_roundtrip cfg r H)⟩
 
 def exStateFirst : ARule :=
   [.mExplicit (s "state"), .state [.new], .proto .no .tcp false false, .dport (.one (s "22")) 0 false, .jump (s "ACCEPT")]
@@ -172,13 +187,10 @@ theorem kernel_roundtrip_counterexample :
       getA (s "-m") (normalize pk) ≠ getA (s "-m") (normalize pu) :=
   ⟨{}, exStateFirst, _, _, by decide, rfl, rfl, by decide⟩
 
-/-- An un-negated `--syn` (outside the grammar: `AOpt.wf` demands the negated form) does not
-survive the round trip either: the kernel prints `--tcp-flags FIN,SYN,RST,ACK SYN`. -/
-theorem kernel_roundtrip_syn_counterexample :
-    ∃ (cfg : KCfg) (r : ARule) (pk pu : Pairs),
-      parsePairs (kernelWords cfg r) = some pk ∧ parsePairs (userWords r) = some pu ∧
-      getA (s "--syn") (normalize pk) ≠ getA (s "--syn") (normalize pu) :=
-  ⟨{}, [.jump (s "ACCEPT"), .proto .no .tcp false false, .syn false false], _, _, rfl, rfl, by decide⟩
+/-- An un-negated `--syn`, which the kernel prints as `--tcp-flags FIN,SYN,RST,ACK SYN`, is inside the
+grammar since the repair of F-C05s (before it the device's map had `--tcp-flags`, the target's `--syn`). -/
+theorem kernel_roundtrip_syn : RuleOK {} [.jump (s "ACCEPT"), .proto .no .tcp false false, .syn false false] := by
+  decide
 
 /-! ## non-vacuity: the hypotheses are satisfiable on non-trivial values -/
 
@@ -211,12 +223,12 @@ example : Stable (normalize [(s "-s", s "10.1.1.1/32"), (s "-p", s "TCP"), (s "-
 def obligations : List Lean.Name := [
   ``linux_routes_converge_partial, ``linux_routes_converge_counterexample,
   ``linux_routes_one_hop_per_dst, ``routes_covered_linux, ``linux_routes_kernel_strict,
-  ``iptables_diff_iff,
+  ``iptables_diff_iff_partial, ``iptables_diff_iff_counterexample,
   ``iptables_replace_converges_partial, ``iptables_replace_converges_counterexample,
   ``normalize_idempotent_partial, ``normalize_idempotent_counterexample,
   ``normalize_sound_partial, ``normalize_sound_counterexample,
   ``kernel_roundtrip_partial, ``kernel_roundtrip_no_diff,
-  ``kernel_roundtrip_counterexample, ``kernel_roundtrip_syn_counterexample,
+  ``kernel_roundtrip_counterexample, ``kernel_roundtrip_syn,
   ``opt_roundtrip, ``parsePairs_words, ``getA_normalize]
 
 end NA.C05
